@@ -52,6 +52,7 @@ def buildGen (self : Nat) (later : List (Nat × List Instr)) (toks : List String
     | "f" => cur := .fail false :: cur
     | "F" => cur := .fail true :: cur
     | "q" => cur := .nop :: cur
+    | "S" => cur := .nop :: cur      -- a feeder task of the source: nothing the consumer can observe
     | "o" => stack := { k := .sync, v := arg, acc := cur } :: stack; cur := []
     | "O" => stack := { k := .async, v := arg, acc := cur } :: stack; cur := []
     | "u" => stack := { k := .upd, v := arg, acc := cur } :: stack; cur := []
